@@ -131,7 +131,7 @@ _circuit_prop("C05", ["ev:run", "fan", "run", "fb"], "")
 _circuit_prop("C06", ["res", "run", "fb", "fbarg"], "")
 _circuit_prop("C01", ["res", "run", "fbarg", "ev:run"], "")
 _circuit_prop("C08", ["res", "run", "fb"], "")
-_circuit_prop("C12", ["rd"], "")
+_circuit_prop("C12", ["rd", "ev"], "")
 _circuit_prop("C07", ["seen", "after", "rel", "fbsame"], "")
 _circuit_prop("C10", ["res", "conc"], "")
 _circuit_prop("C09", ["fan"], "")
